@@ -342,10 +342,11 @@ theorem C15_inverted_range_counterexample :
    * tantivy-fst internals: the separator lookup is proved against `FstContract` (C15_fst_locate,
      C15_file_block_for_key); the harness compares the real fst-backed index on every dictionary.
    * zstd block compression and the construction of Levenshtein/regex automata: run-only.
-   * `ord_to_term` and `get_block_with_key` are composed down to the bytes of a whole file
-     (C15_file_ord_to_term_written_store, C15_void_file_ord_to_term, C15_file_block_for_key);
-     `get` / `term_ord` / streams are proved on the block model (C15_ops_refine_*), not yet
-     composed with the framing down to file bytes.
+   * `ord_to_term`, `get_block_with_key`, `term_ord_or_next`, `term_ord`, `get` are composed down to
+     the bytes of a whole file (C15_file_ord_to_term_written_store, C15_void_file_ord_to_term,
+     C15_file_block_for_key, C15_file_term_ord, C15_file_get, C15_small_file_*); streams, automaton
+     search and merge are proved on the block model / front-coded entries (C15_ops_refine_range,
+     C15_automaton_stream, C15_streamer_state_stack, C15_merge), not composed down to file bytes.
    * that `Writer` passes exactly `frameAddrs` to the index builder, and that the store region
      stays below 2^64 bytes, are hypotheses of the file-level theorems. -/
 
